@@ -510,6 +510,11 @@ type treeParams struct {
 	//   10 every actor of the tree is spawned WithContext(a context that is cancelled already)
 	//   11 a third party poisons a leaf; while the leaf is inside its Stopped handler (it blocks there until the
 	//      driver releases it) another thread poisons the root: the shutdown reaches a child that is stopping already
+	//   12 children have MaxRestarts 0; a leaf is busy with a message (it blocks in Receive until the driver releases
+	//      it) when another thread poisons the root - the parent's stop request for the leaf is pending - and then
+	//      the leaf panics on that message: the budget-exhaustion path has to signal the waiting parent
+	//   13 every incarnation of an actor spawns its (fixed-id) children in Started; the root panics once and restarts,
+	//      the second round of SpawnChild calls are duplicates: the children of the first round stay its children
 	Extra int
 }
 
@@ -557,6 +562,10 @@ func engTree(variants []treeParams) vsched.Instance {
 			cancel()
 			spawnOpts = append(spawnOpts, actor.WithContext(cctx))
 		}
+		var childOpts []actor.OptFunc
+		if p.Extra == 12 {
+			childOpts = append(childOpts, actor.WithMaxRestarts(0))
+		}
 		var mk func(name string, depth int) Behaviour
 		mk = func(name string, depth int) Behaviour {
 			return func(k *Kit, c *actor.Context, inc int) {
@@ -574,11 +583,11 @@ func engTree(variants []treeParams) vsched.Instance {
 							}
 						}), "n", actor.WithID("dead"), actor.WithMaxRestarts(0))
 					}
-					if depth < p.Depth && inc == 1 { // children survive a restart of their parent: spawn them once
+					if depth < p.Depth && (inc == 1 || p.Extra == 13) { // children survive a restart of their parent: spawn them once (extra 13: try again, duplicates)
 						for i := 0; i < p.Fan; i++ {
 							cn := fmt.Sprintf("%s.%d", name, i)
 							parentOf[cn] = name
-							c.SpawnChild(k.Producer(cn, mk(cn, depth+1)), "n", append([]actor.OptFunc{actor.WithID(cn), actor.WithRestartDelay(0)}, spawnOpts...)...)
+							c.SpawnChild(k.Producer(cn, mk(cn, depth+1)), "n", append([]actor.OptFunc{actor.WithID(cn), actor.WithRestartDelay(0)}, append(spawnOpts, childOpts...)...)...)
 						}
 					}
 				case actor.Stopped:
@@ -605,6 +614,14 @@ func engTree(variants []treeParams) vsched.Instance {
 						c.Engine().Poison(c.PID())
 					case "crash":
 						panic("crash")
+					case "crashbusy":
+						if !inHandler {
+							inHandler = true
+							e := c.Engine()
+							vsched.Go("shutdown", func() { e.Poison(rootPID) })
+							vsched.Recv(release)
+						}
+						panic("crash while the parent is waiting for this child to stop")
 					case "crash1":
 						if !crashed[name] {
 							crashed[name] = true
@@ -663,6 +680,26 @@ func engTree(variants []treeParams) vsched.Instance {
 		case 7:
 			k.E.Send(rootPID, "crash1")
 			vsched.Quiesce()
+		case 12:
+			k.E.Send(leaf, "crashbusy")
+			vsched.Quiesce()
+			if inHandler {
+				vsched.Send(release, struct{}{})
+			}
+			vsched.Quiesce()
+		case 13:
+			k.E.Send(rootPID, "crash1")
+			vsched.Quiesce()
+			k.E.Send(rootPID, "query")
+			vsched.Quiesce()
+			if p.Depth == 1 {
+				// one of the children (whose entry a duplicate spawn has touched) now stops on its own
+				k.E.Send(leaf, "selfstop")
+				vsched.Quiesce()
+				stoppedSelf = ln0
+				k.E.Send(rootPID, "query")
+				vsched.Quiesce()
+			}
 		case 11:
 			k.E.Poison(leaf)
 			vsched.Quiesce()
@@ -787,6 +824,23 @@ func engTree(variants []treeParams) vsched.Instance {
 			}
 			if len(last.names) != wantN {
 				vs = append(vs, V("children/live-child-missing", "%s: Children() of %s lists %v, want %d live children", p, last.who, last.names, wantN))
+			}
+		}
+		if p.Extra == 13 && len(obs) > 0 {
+			first := obs[0]
+			if len(first.names) != p.Fan {
+				vs = append(vs, V("children/live-child-missing", "%s: after the root restarted and tried to spawn its children again (duplicates) Children() lists %v, want its %d live children", p, first.names, p.Fan))
+			}
+			if p.Depth == 1 && len(obs) > 1 {
+				last := obs[len(obs)-1]
+				for _, n := range last.names {
+					if pids[stoppedSelf] != nil && n == pids[stoppedSelf].ID {
+						vs = append(vs, V("children/stopped-child-still-listed", "%s: Children() of %s still lists %s after it stopped on its own", p, last.who, n))
+					}
+				}
+				if len(last.names) != p.Fan-1 && len(vs) == 0 {
+					vs = append(vs, V("children/live-child-missing", "%s: Children() of %s lists %v, want %d live children", p, last.who, last.names, p.Fan-1))
+				}
 			}
 		}
 		for _, o := range obs {
